@@ -19,13 +19,13 @@ HB_CLIENTS = [
     ("hb-tripwire", "tripwire", False, 2, 400, 10000),
     ("hb-deferred", "deferred", False, 2, 400, 10000),
     # components built on other branches: one line each once their client exists, e.g.
-    # ("hb-lr", "lr", False, 2, 400, 10000),
+    ("hb-lr", "lr", False, 2, 400, 10000),
     ("hb-cow", "cow", True, 2, 400, 10000),     # tap: the plain accesses of m_data's two shared_ptr copies are checked too
     # ("hb-rcu", "rcu", True, 2, 400, 10000),
     ("hb-trigger", "trigger", False, 2, 400, 10000),
     ("hb-dd", "dd", False, 2, 400, 10000),
     ("hb-soh", "soh", True, 2, 400, 10000),
-    # ("hb-dobj", "dobj", True, 2, 400, 10000),
+    ("hb-dobj", "dobj", True, 2, 400, 10000),
 ]
 
 ACQ = ("acq", "ar", "sc")
@@ -79,8 +79,12 @@ def hb_events(run):
             ev = ("acq", a[1], "X")
         elif k in ("prd", "pld"):
             ev = ("rd", a[0], None)
-        elif k in ("pwr", "pst"):
+        elif k in ("pwr", "pst", "pwb"):
             ev = ("wr", a[0], None)
+        elif k == "cpb":        # copy assignment starts: read of the source ("?" = unregistered temporary)
+            ev = ("rd", a[1], None) if a[1] != "?" else ("nop", None, None)
+        elif k == "cpe":        # ... complete: write of the target
+            ev = ("wr", a[0], None) if a[0] != "?" else ("nop", None, None)
         else:
             ev = ("nop", None, None)
         if ev[0] in ("ld", "st", "rmw") and ev[2] not in ORDERS:
@@ -185,6 +189,10 @@ SELFTEST = [
     ("notify-no-edge", "race", ["0 cfg t 1", "2 pwr D 1", "2 cna cv", "1 prd D 1"]),
     ("tap-fields", "race", ["0 cfg t 1", "1 mlk m", "1 pst count 8 1", "1 mul m", "2 pld count 8 1"]),
     ("lockfam-disabled-unchecked", "accept", ["0 cfg lockfam go m 0", "1 pwr P 1", "2 prd P 1"]),
+    ("copy-window-reads-source", "race", ["0 cfg t 1", "1 pwr A 1", "2 cpb B A", "2 cpe B A 1"]),
+    ("copy-window-writes-target", "race", ["0 cfg t 1", "1 prd B -", "2 cpb B ?", "2 cpe B ? 1"]),
+    ("modify-window-begin-is-write", "race", ["0 cfg t 1", "1 prd A -", "2 pwb A"]),
+    ("copy-from-temporaries", "accept", ["0 cfg t 1", "1 cpb B ?", "2 cpb C ?"]),
     ("unknown-with-order", "reject", ["0 cfg t 1", "1 afn a0 sc"]),
     ("unknown-on-known-mutex", "reject", ["0 cfg t 1", "1 mlk m0", "1 mul m0", "1 mxx m0"]),
     ("bad-order", "reject", ["0 cfg t 1", "1 ald a0 weird 0"]),
@@ -225,7 +233,9 @@ def register(PROPS, COMPONENTS):
                                  oracle=oracle_hb)
         names.append(cname)
     PROPS["C07"] = dict(
-        lean_files=["ConcVerif/Props/C07.lean"], components=names, stage="B", pre=selftest_hb,
+        lean_files=["ConcVerif/Props/C07.lean", "ConcVerif/Props/C07_lr.lean", "ConcVerif/Props/C07_tripwire.lean",
+                    "ConcVerif/Props/C07_deferred.lean", "ConcVerif/Props/C07_trigger.lean"],
+        components=names, stage="B", pre=selftest_hb,
         level_text="Lean 4 theorems (kernel-checked; any number of threads, locations and events) over a generic event model of "
                    "mutex / shared-mutex / condition-variable / atomic (with the memory order written in the source) / plain / "
                    "thread events: (i) the executable vector-clock race checker that is run on every observed trace DECIDES the "
@@ -238,7 +248,19 @@ def register(PROPS, COMPONENTS):
                    "after an acquire/seq_cst load or RMW that reads from it or from an RMW-continued release sequence of it; "
                    "(iv) relaxed accesses give no edge (general lemma + concrete racy trace rejected by the checker); (v) every "
                    "trace ACCEPTED by the lock-family / Barrier / Latch models, mapped to happens-before events, satisfies the "
-                   "hypotheses of (ii)/(iii), so the conclusions hold for every accepted trace, not only the observed ones. "
+                   "hypotheses of (ii)/(iii), so the conclusions hold for every accepted trace, not only the observed ones; "
+                   "(vi) the lock-free protocols, again over EVERY trace the component model accepts: left-right (lr_guarded): "
+                   "every write to a copy happens-after every earlier read and write of it and every read happens-after every "
+                   "earlier write (edges: write mutex, store of m_readingLeft -> reader's load, reader's decrement -> writer's "
+                   "counter load through the RMW-only release sequence), for every assignment of memory orders with those four "
+                   "operations at least release/acquire, each of the four shown necessary by a concrete accepted trace that "
+                   "races otherwise; TripWire: the trigger's release store synchronises with every acquire load that reads from "
+                   "it, the model's know/msg publication ghost is sound for happens-before, every accepted client read / "
+                   "overwriting write happens-after a write of the value read / overwritten; deferred_guarded: the closure of "
+                   "a queued task reaches the drainer through the queue mutex alone, for ANY orders of the pending flag; "
+                   "TriggerVariable: a load of triggered/activated that sees a non-initial value reads from a store of that value "
+                   "which happens-before it, so what the triggering thread did before trigger() is ordered before what the "
+                   "waiter does after the load that ended wait(). "
                    "Tied to the source on every run: the unmodified headers run against substituted std primitives (and the "
                    "plain-access tap) under a deterministic scheduler; every raw trace of every client is mapped to "
                    "happens-before events using the memory orders WRITTEN IN THE SOURCE and must pass the Lean checker, so a "
@@ -263,7 +285,22 @@ def register(PROPS, COMPONENTS):
         partial=["the theorem is over the operational abstraction above (SC-interleaved, declared-order clocks), not the axiomatic "
                  "C++11 model: executions with stale reads of non-seq_cst loads, load buffering or hardware reorderings are not "
                  "covered; libstdc++ internals are trusted",
-                 "per-protocol instantiations (v) are proved for the lock family (payload), Barrier (plain fields) and Latch "
-                 "(counter release sequence); for components built on other branches the generic theorems apply through the "
-                 "observed traces (checker + soundness), their model-level instantiations are not part of this branch"],
+                 "model-level theorems (over every trace the component model accepts) exist for: the lock family (payload, "
+                 "lockset), Barrier (plain fields, lockset), Latch (counter release sequence, fast path), lr_guarded (both copies: "
+                 "full race freedom, C07_lr*), TripWire (release store -> acquire load edge, soundness of the publication ghost, "
+                 "write->read and write->write order of client data; NOT read->write: the model does not track which thread has "
+                 "read a datum), deferred_guarded (only the queued closure through the queue mutex, C07_deferred_flag; the "
+                 "wrapped object under m is NOT a model-level theorem here), TriggerVariable (store -> load edge of both flags and "
+                 "publication through trigger()/wait(), C07_trigger_*; the model has no client-data events, so the statement is "
+                 "about the positions before the store / after the load)",
+                 "covered through the checker on OBSERVED traces only (raceFree + its soundness, every run): deferred_guarded's "
+                 "wrapped object, DualMappedVector/SearchableObjectHolder/DelayedObjects, the read->write half of "
+                 "the TripWire client data; rcu_list (RCU log, link stores) and cow_guarded: PLACEHOLDER - their models are "
+                 "being built on other branches, nothing model-level is claimed for them here",
+                 "lr_guarded: the theorem needs only release on the store of m_readingLeft and on the counter decrement and "
+                 "acquire on the load of m_readingLeft and on the counter load; the seq_cst of the increment and of "
+                 "m_countingLeft is needed for the INTERLEAVING (store-buffering pattern store rl; load cnt || inc cnt; load rl), "
+                 "which this operational abstraction (SC-interleaved traces) takes as given: a mutant that weakens them is "
+                 "reported by the lr model as an order mismatch (C03), not as a race; deferred_guarded: the orders of the pending "
+                 "flag matter for liveness (C06) only, not for data-race freedom"],
     )
